@@ -65,6 +65,7 @@ class Vc:
         self.bases = []
         self.module = None
         self.strip_paths = set()
+        self.corollaries = []      # (function name in prelude / postlude, tags, text): a verified function of the unit that is itself an obligation
         self._parse(path)
 
     def _expand(self, path, templates):
@@ -197,6 +198,11 @@ class Vc:
                 self.strip_paths.add(rest)
             elif word == 'source':
                 self.sources.append(rest)
+            elif word == 'corollary':
+                m = re.match(r'(\w+)\s+\[([^\]]*)\]\s*(.*)$', rest)
+                if not m:
+                    raise VcError("%s:%d corollary needs `name [tags] text`" % (path, ln))
+                self.corollaries.append((m.group(1), m.group(2).split(), m.group(3).strip()))
             elif word in ('header', 'prelude', 'postlude'):
                 cur = (word, None, path, ln + 1)
             elif word == 'drop':
@@ -385,6 +391,9 @@ class Extractor:
             if getattr(self, 'as_base', False):
                 # base unit: lemmas are proved in their own unit; here they are assumed by their statements (bodies skipped)
                 text = re.sub(r'(?m)^(\s*)((?:pub\s+)?(?:broadcast\s+)?proof\s+fn\b)', r'\1#[verifier::external_body] \2', text)
+            if vc.defines.get('canary') and not getattr(self, 'as_base', False):
+                # vacuity canary of a corollary: at the marked point (after the last step, preconditions and invariants in force) `false` must NOT be provable
+                text = text.replace('// [corollary-canary]', 'proof { assert(false); } // [canary]')
             self.out.add(text, {'kind': 'vc', 'file': p, 'line': ln, 'part': 'prelude', 'base': getattr(self, 'as_base', False)})
         for rel in vc.sources:
             path = os.path.join(self.repo, rel)
@@ -547,6 +556,13 @@ class Extractor:
                             self.rule('R16', sf.rel, sf.line_of(e.start), 'format!(%s) in %s -> fmt_key("%s", %s)' % (inner[0].text, q, m.group(1), m.group(2)))
                             i += 3
                             continue
+                if is_tok(e, 'tqdm', kind='ident') and i + 2 < len(el) and is_tok(el[i + 1], '!') and is_group(el[i + 2], '('):
+                    # R17: kdam's progress-bar wrapper `tqdm!(ITER)` -> `tqdm_iter(ITER)`: the stand-in yields the items of the wrapped iterator in order (assumed)
+                    edits.append((e.start, el[i + 1].end, 'tqdm_iter', {'kind': 'rule', 'rule': 'R17'}))
+                    self.rule('R17', sf.rel, sf.line_of(e.start), 'tqdm!(..) in %s -> tqdm_iter(..)' % q)
+                    rec(el[i + 2].children)
+                    i += 3
+                    continue
                 if isinstance(e, Group):
                     rec(e.children)
                 i += 1
